@@ -88,22 +88,22 @@ def run(ctx):
     sites = pools.find_sites(prog, mn)
     ctx.check(len(sites) == 1, f"{P}.POOL", mn.site, "one pool call", f"{len(sites)} pool calls")
     for s in sites:
-        pools.rule_P1(ctx, P, s)
-        pools.rule_P2(ctx, P, prog, s)
-        pools.rule_P3(ctx, P, prog, s)
-        pools.rule_X2(ctx, P, s)
         pm = parents(mn.node)
         anc = []
         n = pm.get(s.call)
         while n is not None:
             anc.append(n)
             n = pm.get(n)
-        lvl = [a for a in anc if isinstance(a, ast.For) and norm(a.iter) == "range(pck.limit_level + 1)"]
+        lvl = [a for a in anc if isinstance(a, ast.For) and any(x is a for x, _, _ in formulas.level_loops(mn))]
         wth = [a for a in anc if isinstance(a, ast.With)]
-        ok = bool(lvl) and bool(wth) and wth[0] in list(ast.walk(lvl[0]))
+        ok = bool(lvl) and bool(wth) and any(w is x for w in wth for x in ast.walk(lvl[0]))
         ctx.check(ok, f"{P}.P1b", mn.site, "the pool is created and drained inside the ascending level loop",
-                  "the unordered pool is not enclosed by the ascending level loop: coarse data may overwrite fine data",
-                  where=loc(mn, s.call))
+                  "the unordered pool is not enclosed by the ascending level loop: coarse data may overwrite fine data "
+                  "depending on the completion order of the read tasks", where=loc(mn, s.call))
+        pools.rule_P1(ctx, P, s)
+        ctx.attempt(pools.rule_P2, ctx, P, prog, s)
+        pools.rule_P3(ctx, P, prog, s)
+        pools.rule_X2(ctx, P, s)
         # the store
         loop = s.consumer[2]
         st = [n for n in ast.walk(loop) if isinstance(n, ast.Assign) and isinstance(n.targets[0], ast.Subscript)
